@@ -96,6 +96,7 @@ theorem m_fades_short (cs : List LCmd) (hw : WFL cs) (K : Nat) (ht : Terminates 
       | pyro m => rw [af.1] at ha; exact absurd ha (by decide)
       | pyroSet m => rw [af.1] at ha; exact absurd ha (by decide)
       | nop => rw [af.1] at ha; exact absurd ha (by decide)
+      | trigger p a => rw [af.1] at ha; exact absurd ha (by decide)
       | waitUntil v => rw [af.1] at ha; exact absurd ha (by decide)
 
 theorem m_not_instant (cs : List LCmd) (hw : WFL cs) (K : Nat) (ht : Terminates cs K) (t : Nat) (h0 : 0 < t)
@@ -167,6 +168,7 @@ theorem machine_running (cs : List LCmd) (hw : WFL cs) (K : Nat) (ht : Terminate
     | pyro m => exact idle af.1 af.2.1
     | pyroSet m => exact idle af.1 af.2.1
     | nop => exact idle af.1 af.2.1
+    | trigger p a => exact idle af.1 af.2.1
     | waitUntil v => exact idle af.1 af.2.1
   · exfalso
     have hmn : m = K + 1 := by
@@ -264,6 +266,7 @@ theorem r_fades_short (cs : List LCmd) (hw : WFL cs) (K H : Nat) (hr : RunsPast 
     | pyro m => rw [af.1] at ha; exact absurd ha (by decide)
     | pyroSet m => rw [af.1] at ha; exact absurd ha (by decide)
     | nop => rw [af.1] at ha; exact absurd ha (by decide)
+    | trigger p a => rw [af.1] at ha; exact absurd ha (by decide)
     | waitUntil v => rw [af.1] at ha; exact absurd ha (by decide)
 
 theorem r_not_instant (cs : List LCmd) (hw : WFL cs) (K H : Nat) (hr : RunsPast cs K H) (t : Nat) (h0 : 0 < t)
@@ -335,6 +338,7 @@ theorem machine_running_upTo (cs : List LCmd) (hw : WFL cs) (K H : Nat) (hrp : R
     | pyro m => exact idle af.1 af.2.1
     | pyroSet m => exact idle af.1 af.2.1
     | nop => exact idle af.1 af.2.1
+    | trigger p a => exact idle af.1 af.2.1
     | waitUntil v => exact idle af.1 af.2.1
   · -- the program cannot have ended by the horizon
     exfalso
@@ -468,5 +472,39 @@ example (hist : List (Nat × Nat)) (hH : ∀ x ∈ hist, x.1 ≤ 4000) (f : Nat)
       = (255, 0, 0) := by decide
   rw [e1] at h
   exact ⟨h.1, h.2.2⟩
+
+
+/-! ### non-vacuity: channel-driven colours and triggered jumps -/
+
+/-- white 0.1 s; colour from channels 1,2,3 for 0.1 s (no signal source: black); two triggered jumps (one with an
+address operand, one without: both only consume their operands); fade to the channels' colour (black) over 0.2 s -/
+def demoT : List LCmd :=
+  [.base (.set .white 255 255 255 5), .base (.set (.chan 1 2 3) 0 0 0 5), .base (.trigger 16 3), .base (.trigger 1 0),
+   .base (.fade (.chan 4 5 6) 0 0 0 10)]
+
+theorem demoT_bytes : encodeL demoT = [7, 5, 16, 1, 2, 3, 5, 19, 16, 3, 19, 1, 17, 4, 5, 6, 10] := by
+  simp only [encodeL, demoT, List.map, LCmd.bytes, Cmd.bytes, List.flatten, varint_small 10 (by decide), varint_small 5 (by decide),
+    varint_small 3 (by decide)]
+  decide
+
+theorem demoT_wf : WFL demoT := by
+  refine ⟨?_, by decide, by rw [demoT_bytes]; decide, fun t a h => by simp [demoT] at h⟩
+  intro c hc
+  simp only [demoT, List.mem_cons, List.mem_nil_iff, or_false] at hc
+  rcases hc with rfl | rfl | rfl | rfl | rfl <;> simp [LCmd.ok, Cmd.ok, Enc.fits]
+
+theorem demoT_terminates : Terminates demoT 5 := ⟨by decide, by unfold LiveM; decide, by decide, by decide⟩
+
+/-- whatever was asked before: at 150 ms the player is inside the channel-colour command and shows black; the two
+triggered jumps took no time (the fade starts at 200 ms) -/
+example (hist : List (Nat × Nat)) (f : Nat) (p r : Player)
+    (hp : seekAll (Player.fresh (encodeL demoT)) hist = .ok p) (hr : p.seek 150 f = .ok r) :
+    r.exec.color = (0, 0, 0) ∧ r.exec.ended = false := by
+  have h := machine_running demoT demoT_wf 5 demoT_terminates hist 150 f p r hp hr 1 (by decide) (by decide) (by decide) (by decide)
+  have e1 : specM ((demoT[(am demoT 1).idx]'(demoT_terminates.live 1 (by decide))).asCmd) (am demoT 1).m 150 = (0, 0, 0) := by decide
+  rw [e1] at h
+  exact ⟨h.1, h.2.2⟩
+
+example : (am demoT 4).m.T = 200 ∧ (am demoT 5).m.T = 400 := by decide
 
 end Sb.C02
